@@ -79,8 +79,20 @@ func (lv *LeafVariants) canDelete() bool {
 		return true
 	}
 
-	// if we have runnig and only running we should not delete
-	if len(lv.les) == 1 && lv.les[0].Owner() == RunningIntentName {
+	// if we have running and nothing but running and the schema default, we should not delete.
+	// (the default may have been added to the running value e.g. by a validator that loaded it)
+	hasRunning := false
+	onlyRunningOrDefault := true
+	for _, l := range lv.les {
+		switch l.Owner() {
+		case RunningIntentName:
+			hasRunning = true
+		case DefaultsIntentName:
+		default:
+			onlyRunningOrDefault = false
+		}
+	}
+	if hasRunning && onlyRunningOrDefault {
 		return false
 	}
 
